@@ -138,10 +138,19 @@ type Template struct {
 	Freq      uint64
 	Total     int64
 	Module    string // non-empty: created through the keeper API by "another module"
+	SameTxAs  string // created while handling the same message as the named template (same tx hash and message index)
 	Threshold uint32
 }
 
 func (sc *Scenario) TxHash(ti int) []byte {
+	if o := sc.Templates[ti].SameTxAs; o != "" {
+		for j := range sc.Templates {
+			if sc.Templates[j].Name == o {
+				return sc.TxHash(j)
+			}
+		}
+		panic("unknown template " + o)
+	}
 	h := sha256.Sum256([]byte("tmpl:" + sc.Templates[ti].Name))
 	b := h[:]
 	// the first byte decides the processing order inside EndBlocker; FlipIDs reverses it
@@ -230,6 +239,17 @@ func actBindBig(svc, prov, owner, dep, price string, qos uint64) Action {
 	return Action{Name: fmt.Sprintf("bind(%s,%s,%s,%s,price %s,q%d)", svc, prov, owner, dep, price, qos), Kind: "bind", Svc: svc, Prov: A(prov), Signer: A(owner),
 		Pricing: pt, QoS: qos, Tmpl: -1,
 		Msg: st.NewMsgBindService(svc, A(prov), bigCoins(dep), pt, qos, "{}", A(owner))}
+}
+
+// actUpdateBig / actEnableBig: top-ups beyond int64.
+func actUpdateBig(svc, prov, owner, dep string) Action {
+	return Action{Name: fmt.Sprintf("update(%s,%s,%s,+%s)", svc, prov, owner, dep), Kind: "update", Svc: svc, Prov: A(prov), Signer: A(owner), Tmpl: -1,
+		Msg: st.NewMsgUpdateServiceBinding(svc, A(prov), bigCoins(dep), "", 0, "{}", A(owner))}
+}
+
+func actEnableBig(svc, prov, owner, dep string) Action {
+	return Action{Name: fmt.Sprintf("enable(%s,%s,%s,+%s)", svc, prov, owner, dep), Kind: "enable", Svc: svc, Prov: A(prov), Signer: A(owner), Tmpl: -1,
+		Msg: st.NewMsgEnableServiceBinding(svc, A(prov), bigCoins(dep), A(owner))}
 }
 
 func actUpdate(svc, prov, owner string, dep int64, pr string, qos uint64) Action {
